@@ -16,10 +16,20 @@ TOPEXT = {"h5", "gro", "pdb", "pdb.gz"}
 PYX = ["mdtraj.formats.xtc", "mdtraj.formats.trr", "mdtraj.formats.dcd", "mdtraj.formats.dtr"]
 
 
-def ids_of_traj(t, ai):
-    if ai is not None and 0 not in ai:
+def ids_of_traj(t, ai, full=None):
+    """which frames of the file `t` holds: from the tag carried by atom 0, or (atom 0 not selected) by looking the first selected atom's
+    coordinates up in the full load"""
+    if ai is None or 0 in ai:
+        x = t.xyz if ai is None or ai[0] == 0 else t.xyz[:, [list(ai).index(0)]]
+        return tf.frame_ids(x, 1.0)
+    if full is None:
         return None
-    return tf.frame_ids(t.xyz, 1.0)
+    ref = full.xyz[:, ai[0], :]
+    out = []
+    for row in t.xyz[:, 0, :]:
+        hit = np.nonzero((ref == row).all(axis=1))[0]
+        out.append(int(hit[0]) if len(hit) == 1 else -1)
+    return out
 
 
 def fmt_ids(ids):
@@ -83,7 +93,7 @@ def do_job(env, kind, ext, n, p, m):
                 s, ai = p["stride"], p["ai"]
                 t = md.load(path, stride=s, atom_indices=ai, **kw)
                 want = allids[::s]
-                ids = ids_of_traj(t, ai)
+                ids = ids_of_traj(t, ai, full)
                 if ids is None:
                     ids = want if t.n_frames == len(want) else [-1] * t.n_frames
                 err = None if ids == want else "frames %s, expected %s" % (ids, want)
@@ -97,7 +107,7 @@ def do_job(env, kind, ext, n, p, m):
             elif kind == "frame":
                 i, ai = p["i"], p["ai"]
                 t = md.load_frame(path, i, atom_indices=ai, **kw)
-                ids = ids_of_traj(t, ai)
+                ids = ids_of_traj(t, ai, full)
                 err = None if ids == [i] else "frames %s, expected [%d]" % (ids, i)
                 err = err or fields_match(t, full, [i], ai)
                 if err:
@@ -130,7 +140,7 @@ def do_job(env, kind, ext, n, p, m):
                     out["viols"].append(("%s|iterload|raises|%s" % (ext, cls), "%s raises %s" % (call, exc)))
                     got = "EXC"
                 else:
-                    idl = [ids_of_traj(ch, ai) for ch in chunks]
+                    idl = [ids_of_traj(ch, ai, full) for ch in chunks]
                     flat = [x for l in idl for x in l]
                     err = None
                     if flat != want:
@@ -180,6 +190,34 @@ def do_job(env, kind, ext, n, p, m):
     return out
 
 
+def atom_subset(rng, n_atoms=12):
+    """atom_indices from the shapes a reader might special-case: a block, every k-th atom, a subset that only LOOKS regular (first gap and
+    span of an arithmetic progression, uneven inside), one atom, all atoms, a random increasing subset"""
+    kind = rng.choice(["block", "ap", "fake-ap", "fake-ap", "one", "all", "random", "random"])
+    if kind == "block":
+        a = rng.randrange(0, n_atoms - 2); b = rng.randrange(a + 1, n_atoms)
+        return list(range(a, b + 1))
+    if kind == "ap":
+        g = rng.choice([2, 3, 4]); a = rng.randrange(0, 3)
+        return list(range(a, n_atoms, g))
+    if kind == "fake-ap":
+        g = rng.choice([2, 2, 3]); m = rng.choice([4, 5]) if g == 2 else 4
+        a = rng.randrange(0, n_atoms - g * (m - 1))
+        ap = [a + g * i for i in range(m)]
+        for _ in range(20):
+            inner = sorted(rng.sample(range(ap[1] + 1, ap[-1]), m - 2))
+            cand = [ap[0], ap[1]] + inner
+            cand = sorted(set([ap[0], ap[1]] + inner[: m - 3] + [ap[-1]]))
+            if len(cand) == m and cand != ap:
+                return cand
+        return ap
+    if kind == "one":
+        return [rng.randrange(n_atoms)]
+    if kind == "all":
+        return list(range(n_atoms))
+    return sorted(rng.sample(range(n_atoms), rng.randrange(2, 7)))
+
+
 def run(ctx):
     warnings.filterwarnings("ignore")
     ctx.rule = ("md.load(stride, atom_indices) / load_frame / iterload(chunk, stride, skip, atom_indices) / load(list) on tagged "
@@ -199,14 +237,16 @@ def run(ctx):
                 jobs.append(("load", ext, n, dict(stride=s, ai=None)))
             jobs.append(("load", ext, n, dict(stride=rng.choice([1, 2, 3]), ai=[0] + sorted(rng.sample(range(1, 12), 4)))))
             jobs.append(("load", ext, n, dict(stride=1, ai=sorted(rng.sample(range(1, 12), 3)))))
+            for _ in range(ctx.n(3, 10)):
+                jobs.append(("load", ext, n, dict(stride=rng.choice([1, 1, 2]), ai=atom_subset(rng))))
             for i in (sorted({0, n - 1, rng.randrange(n)}) if ctx.quick else range(n)):
-                jobs.append(("frame", ext, n, dict(i=i, ai=None if rng.random() < 0.7 else [0, 2, 5])))
+                jobs.append(("frame", ext, n, dict(i=i, ai=None if rng.random() < 0.6 else (atom_subset(rng) if rng.random() < 0.7 else [0, 2, 5]))))
             combos = [(c, s, k) for c in range(0, n + 3) for s in (1, 2, 3, 4) for k in range(0, n + 1)]
             if ctx.quick:
                 fixed = [(4, 3, 0), (100, 3, 1), (0, 2, 1), (1, 1, 0), (2, 2, 3), (3, 1, n), (n + 2, 2, 0), (5, 4, 2)]
                 combos = fixed + rng.sample(combos, 22)
             for (c, s, k) in combos:
-                ai = None if rng.random() < 0.8 else [0] + sorted(rng.sample(range(1, 12), 3))
+                ai = None if rng.random() < 0.75 else (atom_subset(rng) if rng.random() < 0.6 else [0] + sorted(rng.sample(range(1, 12), 3)))
                 jobs.append(("iter", ext, n, dict(chunk=c, stride=s, skip=k, ai=ai)))
             for _ in range(ctx.n(2, 8)):
                 jobs.append(("list", ext, n, dict(k=rng.randrange(1, 4), stride=rng.choice([1, 2, 3]))))
@@ -274,8 +314,49 @@ def run(ctx):
                         "discarded" if full.unitcell_lengths is None else "kept", "discarded" if part.unitcell_lengths is None else "kept", ai), dict(atom_indices=ai)))
     except Exception as e:  # noqa: BLE001
         ctx.broke("harness:pdb-dummy-cell", "%s: %s" % (type(e).__name__, e))
+    # legacy .lh5 files cannot be written in this environment (PyTables rejects the topology string array), but they are readable: the one in
+    # the repository's test data (501 frames, 22 atoms) is loaded partially and compared with slices of its full load
+    try:
+        import mdtraj as md
+        lh5 = os.path.join(REPO_DIR(), "tests", "data", "frame0.lh5")
+        if os.path.exists(lh5):
+            full = md.load(lh5)
+            nfl = full.n_frames
+            for _ in range(ctx.n(10, 60)):
+                c, s_, k = rng.choice([1, 4, 7, 50, 100, 600]), rng.choice([1, 2, 3, 5, 7]), rng.choice([0, 0, 1, 13, 400, nfl])
+                ai = None if rng.random() < 0.6 else atom_subset(rng, 22)
+                chunks = []
+                for ch in md.iterload(lh5, chunk=c, stride=s_, skip=k, atom_indices=ai):
+                    chunks.append(ch)
+                    if len(chunks) > nfl + 5:
+                        break
+                ctx.case(None, ("lh5", c, s_, k, None if ai is None else tuple(ai))); ctx.count("calls:lh5-iterload")
+                want = full[k::s_] if k < nfl else None
+                got_n = sum(ch.n_frames for ch in chunks)
+                cat = np.concatenate([ch.xyz for ch in chunks]) if chunks else np.zeros((0, 22 if ai is None else len(ai), 3))
+                wx = np.zeros((0,) + cat.shape[1:]) if want is None else (want.xyz if ai is None else want.xyz[:, ai])
+                bad = None
+                if cat.shape != wx.shape or not np.array_equal(cat, wx):
+                    bad = "%d frames in chunks of %s, file[%d::%d] has %d" % (got_n, [ch.n_frames for ch in chunks][:6], k, s_, len(wx))
+                elif any(ch.n_frames != c for ch in chunks[:-1]):
+                    bad = "chunk sizes %s for chunk=%d" % ([ch.n_frames for ch in chunks][:8], c)
+                if bad:
+                    seen.setdefault("lh5|iterload|%s" % ("stride>1" if s_ > 1 else "stride=1"), ("md.iterload(frame0.lh5, chunk=%d, stride=%d, skip=%d, atom_indices=%s): %s" % (c, s_, k, ai, bad),
+                                                                                               dict(chunk=c, stride=s_, skip=k, atom_indices=ai)))
+            for s_ in (1, 2, 5):
+                part = md.load(lh5, stride=s_, atom_indices=[0, 3, 4, 9])
+                ctx.case(None, ("lh5-load", s_)); ctx.count("calls:lh5-load")
+                if not np.array_equal(part.xyz, full.xyz[::s_][:, [0, 3, 4, 9]]):
+                    seen.setdefault("lh5|load", ("md.load(frame0.lh5, stride=%d, atom_indices=[0, 3, 4, 9]) differs from the slice of the full load" % s_, dict(stride=s_)))
+    except Exception as e:  # noqa: BLE001
+        ctx.broke("harness:lh5", "%s: %s" % (type(e).__name__, e))
     for key, (what, rp) in seen.items():
         ctx.violation(key, what, rp)
+
+
+def REPO_DIR():
+    import mdv_boot
+    return mdv_boot.REPO
 
 
 def replay(ctx, path):
